@@ -107,11 +107,10 @@ _BASES = {
 _counter = itertools.count()
 
 
-def build_class(spec):
+def build_class(spec, inherit_missing=False):
+    """``inherit_missing``: the ``_missing_`` hook lives in a member-less base enum instead of the class body."""
     bases = _BASES[spec["base"]]
-    ns = enum.EnumMeta.__prepare__(f"E{next(_counter)}", bases)
-    for name, vs in spec["members"]:
-        ns[name] = _val(vs)
+    hook = None
     if spec.get("missing"):
         first = spec["members"][0][0]
 
@@ -119,7 +118,16 @@ def build_class(spec):
             if value == "__missing__":
                 return cls[_first]
             return None
-        ns["_missing_"] = classmethod(_missing_)
+        hook = classmethod(_missing_)
+        if inherit_missing:
+            bns = enum.EnumMeta.__prepare__(f"EB{next(_counter)}", bases)
+            bns["_missing_"] = hook
+            bases = (enum.EnumMeta(f"EB{next(_counter)}", bases, bns),)
+    ns = enum.EnumMeta.__prepare__(f"E{next(_counter)}", bases)
+    for name, vs in spec["members"]:
+        ns[name] = _val(vs)
+    if hook is not None and not inherit_missing:
+        ns["_missing_"] = hook
     if spec["base"] in ("Flag", "IntFlag") and spec.get("boundary"):
         return enum.EnumMeta(f"E{next(_counter)}", bases, ns, boundary=getattr(enum, spec["boundary"]))
     return enum.EnumMeta(f"E{next(_counter)}", bases, ns)
@@ -588,6 +596,29 @@ def check_case(ctx: runner.Ctx, case):  # noqa: C901, PLR0912, PLR0915
         if same and v1 != v2:
             viol("dump_not_injective", ("+".join(sorted(feats)) or "plain",), f"{v1!r} and {v2!r} both dump to {d1!r}")
 
+    # ---- a _missing_ hook inherited from a member-less base enum behaves like the same hook in the class body (nothing is
+    # claimed about what the hook does: the two classes are compared with each other)
+    if spec.get("missing") and kind in ("exact", "by_value") and not is_flag:
+        try:
+            twin = build_class(spec, inherit_missing=True)
+            twin_prov = make_provider(twin, prov)
+            twin_loader = Retort(recipe=[p for p in [twin_prov] if p is not None], strict_coercion=case["strict"],
+                                 debug_trail=DEBUG[case["debug"]]).get_loader(twin)
+        except Exception as e:  # noqa: BLE001
+            viol("inherited_missing_hook", ("creation", type(e).__name__), describe(e))
+        else:
+            def shape(fn, cand):
+                try:
+                    return ("ok", fn(cand).name)
+                except LoadError as e:
+                    return ("load_error", type(e).__name__)
+                except Exception as e:  # noqa: BLE001
+                    return ("error", type(e).__name__)
+            for cand in ["__missing__", *[d for _, d in dumped], *SOUP[:12]]:
+                a, b = shape(loader, cand), shape(twin_loader, cand)
+                if a != b:
+                    viol("inherited_missing_hook", (a[0], b[0]),
+                         f"candidate={cand!r}: hook in the class body -> {a!r}; the same hook inherited from a base enum -> {b!r}")
     # ---- candidate representations: must-accept / must-reject / unspecified
     cands = list(SOUP)
     for _, d in dumped:
